@@ -194,7 +194,47 @@ def h_chained(h):
     h.close(cond.cdf(x, gs[0]), expected(h, fam, "cdf", x, th), "chained-in-conditional")
 
 
+def h_defaults(h):
+    """an unfitted dependence function uses the defaults of its callable (documented: the default value, or 1 where the
+    callable declares none) - for every mix of parameters with and without defaults"""
+    DF = shim.mod("dependencies").DependenceFunction
+    CD = shim.mod("distributions").ConditionalDistribution
+    kind = h.cfg["kind"]
+
+    def none_(x, a, b, c):
+        return a + b * x + c * x * x
+
+    def all_(x, a=0.75, b=0.25, c=0.125):
+        return a + b * x + c * x * x
+
+    def trailing(x, a, b, c=0.5):
+        return a + b * x + c * x * x
+
+    def trailing2(x, a, b=0.0, c=2.5):
+        return a + b * x + c * x * x
+
+    f, want = {"none": (none_, [1, 1, 1]), "all": (all_, [0.75, 0.25, 0.125]), "trailing": (trailing, [1, 1, 0.5]),
+               "trailing2": (trailing2, [1, 0.0, 2.5])}[kind]
+    d = DF(f)
+    h.reach()
+    h.check(list(d.parameters) == ["a", "b", "c"], "parameters-in-signature-order", str(list(d.parameters)))
+    h.close([d.parameters[k] for k in "abc"], want, "default-or-one")
+    gs = [h.real(f"g{i}", 0.1, 2.0) for i in range(2)]
+    ref = lambda t: want[0] + want[1] * t + want[2] * t * t
+    got = d(h.arr(gs))
+    for j in range(2):
+        h.close(got[j], ref(gs[j]), "unfitted-function-evaluates-with-its-defaults")
+        h.close(d(gs[j]), ref(gs[j]), "unfitted-function-evaluates-with-its-defaults")
+    fam = FAMILIES["ExpWeibull"]
+    cond = CD(fam.make(f_beta=1.5, f_delta=2.0), {"alpha": d})
+    x = h.real("x", 0.2, 6)
+    th = {"alpha": ref(gs[0]), "beta": 1.5, "delta": 2.0}
+    h.close(cond.cdf(x, gs[0]), expected(h, fam, "cdf", x, th), "defaults-in-conditional")
+
+
 def obligations(tier):
+    for kind in ("none", "all", "trailing", "trailing2"):   # documented form func(x, *args): positional parameters
+        yield ("defaults", h_defaults, {"kind": kind}, {})
     fams = SHIPPED if tier == "quick" else SHIPPED + ["ScipyWeibullMin", "ScipyGamma"]
     givens = ["scalar", "vec2", "int", "intvec"] if tier == "quick" else ["scalar", "vec2", "vec3", "int", "intvec"]
     shapes = ["linear", "exp3"] if tier == "quick" else ["linear", "exp3", "power3"]
